@@ -205,7 +205,7 @@ func driveMain(fs *flag.FlagSet, args []string) {
 	for _, u := range unknown {
 		v := u.Violations[0]
 		ck := v.Class + "|" + v.Key
-		if seenClass[ck] || len(seenClass) >= 4 {
+		if seenClass[ck] || len(seenClass) >= 5 {
 			continue
 		}
 		seenClass[ck] = true
@@ -215,7 +215,7 @@ func driveMain(fs *flag.FlagSet, args []string) {
 		if u.K >= 0 {
 			name += fmt.Sprintf("-k%d", u.K)
 		}
-		name += "-" + sanitize(strings.TrimPrefix(v.Class, p.ID+"/"))
+		name += "-" + sanitize(strings.TrimPrefix(v.Class, p.ID+"/")) + "-" + sanitize(v.Key)
 		final := filepath.Join(*replays, p.ID, name+".json")
 		rf := ReplayFile{Property: p.ID, Tier: *tier, BaseSeed: *seed, RunIndex: u.Idx, SweepK: u.K, Class: v.Class, Key: v.Key, Msg: v.Msg, Tape: u.Tape}
 		if err := writeJSON(raw, &rf); err != nil {
